@@ -76,6 +76,19 @@ CHECKS["C18"] = dict(
           "byte strings <= 3 over a boundary alphabet); charmap tables (upper/lower/normalisation) out of scope; file/sqlite3 not covered."),
     technique="Lean 4 proof (round trip / refinement to list functions) + exhaustive differential correspondence")
 
+CHECKS["C06"] = dict(
+    category="proof",
+    text=("Lean 4 interpreter model (BlocV/Model/Interp.lean: statements, loop combinators forLoop/whileLoop transcribing "
+          "FORStatement/WHILEStatement::doit, blocks, signals) with theorems in BlocV.Proofs.C06 about the loop combinators for "
+          "arbitrary bodies; tied to /repo by an exhaustive for-header lattice (first, limit, step, direction incl. INT64 "
+          "extremes and nulls), bounded-exhaustive nestings with every exit at every position, bodies modifying the control "
+          "variable, and seeded random structured programs; printed iterator sequences, final variables, control/exec depth "
+          "and constraint flags compared with the model."),
+    design_ref="DESIGN.md §6 C06",
+    note=("Trusted: Lean kernel; the interpreter model evaluates over values (C05 links it to the storage discipline); "
+          "correspondence tested; forall is covered by C09's table model."),
+    technique="Lean 4 proof over an interpreter model + program-level differential correspondence")
+
 NOT_YET = {}
 
 ALL = ["C%02d" % i for i in range(1, 20)]
